@@ -14,7 +14,9 @@ import (
 
 	"cffverif/internal/load"
 	"cffverif/internal/report"
+	"cffverif/internal/gen"
 	"cffverif/internal/sched"
+	"cffverif/internal/variants"
 )
 
 func verifDir() string {
@@ -34,6 +36,7 @@ func verifDir() string {
 func allRules() []report.Rule {
 	var out []report.Rule
 	out = append(out, sched.Rules...)
+	out = append(out, gen.Rules...)
 	return out
 }
 
@@ -76,6 +79,7 @@ func main() {
 
 type engineSet struct {
 	sched bool
+	gen   bool
 }
 
 func parseEngines(s string) engineSet {
@@ -84,8 +88,11 @@ func parseEngines(s string) engineSet {
 		switch e {
 		case "sched":
 			es.sched = true
+		case "gen":
+			es.gen = true
 		case "all":
 			es.sched = true
+			es.gen = true
 		}
 	}
 	return es
@@ -98,6 +105,8 @@ func (es engineSet) has(id string) bool {
 		return es.sched
 	case 'L':
 		return es.sched && id == "L5"
+	case 'V':
+		return es.gen
 	}
 	return false
 }
@@ -118,12 +127,30 @@ func runEngines(es engineSet, tier string, sink *report.Sink) (errs []string) {
 			errs = append(errs, "sched: "+err.Error())
 		}
 	}
+	if es.gen {
+		m, err := variants.ReadModel(repo)
+		if err != nil {
+			errs = append(errs, "variants: "+err.Error())
+		} else {
+			ins, err := m.Expand(tier == "thorough")
+			if err != nil {
+				errs = append(errs, "variants: "+err.Error())
+			} else {
+				sink.SetFact("variants.expanded", len(ins))
+				gen.Run(ins, sink)
+			}
+		}
+	}
 	return errs
 }
 
 func cmdDump(args []string) int {
 	sink := report.NewSink()
-	errs := runEngines(engineSet{sched: true}, "quick", sink)
+	eng := "all"
+	if len(args) > 0 {
+		eng = args[0]
+	}
+	errs := runEngines(parseEngines(eng), "quick", sink)
 	for _, o := range sink.Obligations() {
 		fmt.Printf("%-10s %-4s %-60s %s  %s\n", o.St, o.Rule, o.Key, o.Pos, o.Msg)
 	}
@@ -172,6 +199,8 @@ func cmdCheck(args []string) int {
 		switch r.ID[0] {
 		case 'S', 'L':
 			es.sched = true
+		case 'V':
+			es.gen = true
 		}
 	}
 	sink := report.NewSink()
